@@ -1,6 +1,6 @@
 import numpy as np, warnings, itertools, collections
 warnings.simplefilter('ignore')
-exec(open('/tmp/w/spikeF.py').read().split("for name,o in objs.items():")[0])
+exec(open('/verif/design_spikes/spikeF.py').read().split("for name,o in objs.items():")[0])
 from menpo.transform import WithDims
 issues=collections.Counter()
 shapes={k:objs[k] for k in ('pc','tm','ctm','ttm','pug','pdg','pt','lpug')}
